@@ -356,7 +356,7 @@ func (e *nilEngine) solve() {
 						if rp[i] >= 0 && !nn {
 							// must then return a non-nil error
 							er := x.Results[rp[i]]
-							if !e.nonNil(er, st, in, 0) {
+							if !e.nonNil(er, st, in, 0) && !e.pairedByCallee(r, er) {
 								rp[i] = -1
 							}
 						}
@@ -2162,4 +2162,43 @@ func (e *nilEngine) deleteReachable(fn *ssa.Function, t types.Type) bool {
 		return false
 	}
 	return rec(fn)
+}
+
+// pairedByCallee: r and er are results k and m of one and the same call whose callee guarantees "result k is non-nil
+// whenever result m (its error) is nil" (a function that hands on another function's (value, error) pair unchanged).
+func (e *nilEngine) pairedByCallee(r, er ssa.Value) bool {
+	xr, ok1 := r.(*ssa.Extract)
+	xe, ok2 := er.(*ssa.Extract)
+	if !ok1 || !ok2 || xr.Tuple != xe.Tuple {
+		return false
+	}
+	call, ok := xr.Tuple.(*ssa.Call)
+	if !ok {
+		return false
+	}
+	cs := e.p.Callees(call)
+	if len(cs) == 0 {
+		// an external function: the library pairing lemma (value non-nil when err == nil) is the same one the
+		// ERRNIL facts rely on
+		return externalPairs(calleeName(call), xr.Index, xe.Index)
+	}
+	for _, cal := range cs {
+		if !e.p.fnIndex[cal] {
+			if !externalPairs(cal.String(), xr.Index, xe.Index) {
+				return false
+			}
+			continue
+		}
+		rp := e.retPair[cal]
+		if xr.Index >= len(rp) || rp[xr.Index] != xe.Index {
+			return false
+		}
+	}
+	return true
+}
+
+// externalPairs: for library functions returning (T, error) the result is usable when the error is nil.
+func externalPairs(name string, k, m int) bool {
+	info, ok := externals[extName(name)]
+	return ok && info.Known && !info.MayNil && m == k+1
 }
